@@ -34,6 +34,8 @@ var verifLoaderSnippets = []string{
 	"}\n",
 	"# lead\n",
 	"x = 1 # trail\n",
+	"x = 1 /* u */ /* n */\n",
+	"s { a = 1 } /* u */ # c\n",
 	"t = \"a${b.c}d\"\n",
 	"h = <<EOT\n${a.b}\nEOT\n",
 	"f = g(a.b, [c.d]...)\n",
